@@ -99,6 +99,8 @@ def main(argv=None):
     os.chdir(VERIF)
     sys.path.insert(0, VERIF)
     evidence_path = os.path.join(VERIF, 'evidence', '%s.json' % pid)
+    if os.environ.get('PYVC_REPO', '/repo') != '/repo':
+        evidence_path = os.path.join(VERIF, 'evidence', '%s.scratch.json' % pid)    # a run against a scratch copy is not evidence
     os.makedirs(os.path.dirname(evidence_path), exist_ok=True)
     os.makedirs(os.path.join(VERIF, 'replays', pid), exist_ok=True)
     mod = importlib.import_module('contracts.%s' % pid.lower())
